@@ -147,6 +147,30 @@ def _isz(fmt):
     return fsize(fmt)
 
 
+def _conjuncts(guard):
+    """top-level `and` conjuncts of a guard text like 'if (a and b) if c'"""
+    out = []
+    for part in re.split(r'\bifnot\b|\bif\b', guard):
+        part = part.strip()
+        if part.startswith('(') and part.endswith(')'):
+            part = part[1:-1]
+        depth, cur = 0, ''
+        toks = re.split(r'(\(|\)| and )', part)
+        for t in toks:
+            if t == '(':
+                depth += 1
+            elif t == ')':
+                depth -= 1
+            if t == ' and ' and depth == 0:
+                out.append(cur.strip())
+                cur = ''
+            else:
+                cur += t
+        if cur.strip():
+            out.append(cur.strip())
+    return out
+
+
 def match_decode(spec_seq, s, nz, inv=None):
     """compare a DecSummary with the spec layout.  -> list of (detail, message)"""
     diffs = []
@@ -301,6 +325,27 @@ def match_decode(spec_seq, s, nz, inv=None):
             if not apps:
                 diffs.append(('loop %s append' % attr, 'decode() loop does not append to self.%s' % attr))
             else:
+                # a guard on the append may only drop records the specification excludes
+                from spec.tables import RECORD_FIELD_RANGES
+                for a in apps:
+                    g = a[3] or ''
+                    for conj in _conjuncts(g):
+                        for src, r in elem_reads.items():
+                            m3 = re.match(r'^\$e\.(\w+)$', src)
+                            if not m3 or m3.group(1) not in RECORD_FIELD_RANGES or not re.search(r'\b%s\b' % r.rid, conj):
+                                continue
+                            lo_, hi_ = RECORD_FIELD_RANGES[m3.group(1)]
+                            refused = []
+                            for v_ in (lo_, lo_ + 1, (lo_ + hi_) // 2, hi_ - 1, hi_):
+                                try:
+                                    ok_ = eval(re.sub(r'\b%s\b' % r.rid, str(v_), conj), {'__builtins__': {}, 'range': range, 'len': len, 'abs': abs})
+                                except Exception:
+                                    ok_ = True       # not decidable here: no verdict
+                                if not ok_:
+                                    refused.append(v_)
+                            if refused:
+                                diffs.append(('loop %s filter %s' % (attr, m3.group(1)),
+                                              'decode() drops records whose %s is %s (guard `%s`), values the specification allows' % (m3.group(1), refused, conj)))
                 for src, r in elem_reads.items():
                     if src == '$e' and not any(a[1] == r.rid for a in apps):
                         diffs.append(('loop %s element' % attr, 'decode() appends %s to self.%s instead of the item read' % ([a[1] for a in apps], attr)))
